@@ -92,7 +92,7 @@ def write_evidence(prop, payload):
 
 REAL_STUB = {
     "real": [
-        "nuscenes-devkit NuScenes/PredictHelper reading the generated annotation/*.json files",
+        "nuscenes-devkit NuScenes/PredictHelper (and NuImages for camera worlds) reading the generated annotation/*.json files",
         "perception_eval loader (common/dataset*.py), lookup and interpolation",
         "PerceptionEvaluationConfig / PerceptionEvaluationManager / filters / matching / metrics (AP, APH, mAP, CLEAR) / pass-fail",
         "pickle round trip of frame results; PerceptionAnalyzer3D and get_object_status (C19 only)",
@@ -355,9 +355,9 @@ def main():
         },
         "assumptions": [
             "sampling, not proof: a clean batch is evidence only",
-            "geometry scores (IoU, plane distance) and the APH heading weight are read from the implementation (C06/C09 not claimed)",
+            "geometry scores of boxes in space (IoU, plane distance) are read from the implementation (C06/C09 not claimed); centre distance, ROI scores and the heading agreement of flat boxes are recomputed",
             "decisions within 1e-6 (relative) of a threshold are skipped and counted in skipped_decisions",
-            "3D tasks only (detection, tracking, fp_validation); 2D / traffic-light paths are not simulated",
+            "3D tasks (detection, tracking, fp_validation) and camera worlds (detection2d / tracking2d on image ROIs, probe camera_world_runs); classification / traffic-light paths are not simulated",
             "no intra-call interleavings, disk faults or allocation failures: the library is single-threaded and the properties do not quantify over them",
         ],
     }
